@@ -592,6 +592,21 @@ def fam_overflow(rnd, i, extra=(6,)):
     return steps
 
 
+def fam_ovfend(rnd, i):
+    """Watched files are deleted while the kernel queue is full (the reader is parked, more than max_queued_events records):
+    the records that end their watches are dropped with everything else.  Afterwards - ErrEventOverflow received, stream
+    drained - the watch set, WatchList and the tables should not keep them for ever."""
+    w = "w1"
+    k = 16384 + rnd.choice([20, 200])
+    files = [("d1", "w%d" % j) for j in range(1, rnd.randint(2, 4))]
+    steps = [fs("mkdir", ("d1",))] + [fs("create", f) for f in files] + [new(w, 0)] + [call(w, "add", f, "rel") for f in files]
+    steps += [call(w, "add", ("d1",), "rel"), fs("chmod", files[0]), {"s": "rep", "k": k, "pat": [fs("create", ("d1", "x%"))]}]
+    steps += [fs("unlink", f) for f in files]
+    steps += [drain(w), call(w, "watchlist"), obs(w), fs("create", ("d1", "after")), drain(w), call(w, "watchlist"), obs(w),
+              call(w, "close"), drain(w), obs(w)]
+    return steps
+
+
 def fam_ovfstall(rnd, i, mode=None):
     """Overflow, then the consumer drains Events only and never looks at Errors while control calls are made."""
     w = "w1"
@@ -1792,7 +1807,7 @@ FAMS = {
     "cycle": fam_cycle, "newclose": fam_newclose, "overflow": fam_overflow, "moves": fam_moves, "multi": fam_multi,
     "absorb": fam_absorb, "withops": fam_withops, "repoint": fam_repoint, "stall": fam_stall, "spell": fam_spell,
     "endwatch": fam_endwatch, "paced": fam_paced, "ovfstall": fam_ovfstall, "ovflate": fam_ovflate,
-    "parmoves": fam_parmoves, "multix": fam_multix, "recurse": fam_recurse, "cwd": fam_cwd, "readfault": fam_readfault, "dselfskip": fam_dselfskip, "heldparent": fam_heldparent, "reops": fam_reops, "rootwatch": fam_rootwatch, "slowpair": fam_slowpair, "capsweep": fam_capsweep, "wlpark": fam_wlpark, "recerr": fam_recerr,
+    "parmoves": fam_parmoves, "multix": fam_multix, "recurse": fam_recurse, "cwd": fam_cwd, "readfault": fam_readfault, "dselfskip": fam_dselfskip, "heldparent": fam_heldparent, "reops": fam_reops, "ovfend": fam_ovfend, "rootwatch": fam_rootwatch, "slowpair": fam_slowpair, "capsweep": fam_capsweep, "wlpark": fam_wlpark, "recerr": fam_recerr,
     "kqdir": fam_kqdir, "kqsym": fam_kqsym, "kqburst": fam_kqburst, "kqcycle": fam_kqcycle, "kqfault": fam_kqfault, "kqdot": fam_kqdot, "kqredir": fam_kqredir, "kqblind": fam_kqblind, "kqseq": fam_kqseq, "kqkfault": fam_kqkfault, "kqnested": fam_kqnested,
 }
 
